@@ -82,8 +82,12 @@ where
     /// It does not clear the cache
     pub fn commit(&mut self) -> Result<(), Box<dyn Error>> {
         for (key, value) in self.cache.iter() {
+            #[cfg(feature = "verif")]
+            crate::verif::failpoint("block.commit", self.db.path(), "put", &key.encode_vec());
             self.db.put(&key.encode_vec(), &value.encode_vec())?;
         }
+        #[cfg(feature = "verif")]
+        crate::verif::failpoint("block.commit", self.db.path(), "flush", &[]);
         self.db.flush()?;
         Ok(())
     }
@@ -126,6 +130,13 @@ where
         let last_block = self.last_key()?;
         if let Some(end) = last_block {
             while end >= current {
+                #[cfg(feature = "verif")]
+                crate::verif::failpoint(
+                    "block.reorg",
+                    self.db.path(),
+                    "delete",
+                    &U64ED::from(current).encode_vec(),
+                );
                 self.db.delete(&U64ED::from(current).encode_vec())?;
                 self.cache.remove(&current);
                 current += 1;
